@@ -42,6 +42,8 @@ func childMain(role string, args []string) int {
 		return childHousekeep(args)
 	case "fakeagent":
 		return childFakeAgent(args)
+	case "linger":
+		return childLinger(args)
 	}
 	fmt.Fprintf(os.Stderr, "unknown child role %q\n", role)
 	return 64
